@@ -2,7 +2,7 @@
 import os
 
 from . import core
-from .rules import stdio, cert, mark, exact, optstore, inval, idx, atomic, own, tokens, idxclass, copy, pair, structfree, buf, div, counter, sentinel, appendinit, verdict, basismap, zerotol, escape, lenclass, djsym, ndet, useb4check, norms, opencheck, shell, esolver, errlost, rescan, certdep, neverset, fmt, defaults, scratch, fullscan, slotleak, floatidx
+from .rules import stdio, cert, mark, exact, optstore, inval, idx, atomic, own, tokens, idxclass, copy, pair, structfree, buf, div, counter, sentinel, appendinit, verdict, basismap, zerotol, escape, lenclass, djsym, ndet, useb4check, norms, opencheck, shell, esolver, errlost, rescan, certdep, neverset, fmt, defaults, scratch, fullscan, slotleak, floatidx, sensemap
 from .effects import Effects
 
 FIX = os.path.join(os.path.dirname(os.path.abspath(__file__)), "fixtures")
@@ -185,6 +185,7 @@ def c05_rules():
         lambda prog, tier: inval.run_invalfn(prog),
         lambda prog, tier: inval.run_coupd(prog, eff(prog)),
         lambda prog, tier: inval.run_coupd_sense(prog, eff(prog)),
+        lambda prog, tier: sensemap.run(prog),
         lambda prog, tier: verdict.run(prog),
         lambda prog, tier: djsym.run_nbsym(prog),
     ]
@@ -615,7 +616,8 @@ _ADD = {
                           "Farkas-value and infinite-bound gates."},
     "C05": {"technique": "; per-iteration must-write analysis for the co-update of a row's sense with its logical column",
             "explanation": " (R-COUPD(sense)) every path that stores a new row sense also writes the logical column's lower bound, upper bound and "
-                           "coefficient before the loop iteration / function completes."},
+                           "coefficient before the loop iteration / function completes; (R-SENSEMAP) ILLlib_addrow, ILLlp_add_logicals and ILLlib_chgsense "
+                           "give the logical column the same coefficient sign for every sense letter (value enumeration through the switch / if forms)."},
     "C08": {"technique": "; all-paths constant propagation through the '/' case of the exact literal scanner; flag-state dataflow for stores into the "
                          "raw LP's bounds; machine-word sink census; exit-condition analysis of the emission loops",
             "explanation": " (R-RESCAN) the '/' case of the exact literal scanner restores every scanner state variable; (R-EXPLICITBND) the raw LP's "
